@@ -1,6 +1,6 @@
 SPECIFICATION TraceSpec
 CONSTANTS
-  Sub = {1, 2, 3, 4, 5, 6}
+  Sub = {1, 2, 3, 4, 5, 6, 7, 8, 9, 10, 11, 12}
   Chan = {"a", "b"}
   Topic <- TopicDef
   BufCap = 16
@@ -9,7 +9,8 @@ CONSTANTS
   MaxCloses = 1
   BugNoDrainer = FALSE
   BugCloseKeepsMap = FALSE
-INVARIANTS NoDoubleClose NoSendOnClosed InOrder OnlyOwnTopics RegistryConsistent
+  BugCntDecr = FALSE
+INVARIANTS LiveSubscribersRegistered NoDoubleClose NoSendOnClosed InOrder OnlyOwnTopics RegistryConsistent
 CONSTRAINT HighWater
 POSTCONDITION TraceAccepted
 CHECK_DEADLOCK FALSE
